@@ -1,8 +1,8 @@
 package harness
 
 import (
-	"crypto/sha256"
 	"context"
+	"crypto/sha256"
 	"fmt"
 	"time"
 
@@ -46,14 +46,26 @@ func flipStr(r *prng, s string) string {
 
 func mutations() []mutation {
 	return []mutation{
-		{"flip:signer-address", func(w *World, r *prng, v, o *pb.Vertex) bool { v.SignerPublicAddress = flipStr(r, v.SignerPublicAddress); return true }},
+		{"flip:signer-address", func(w *World, r *prng, v, o *pb.Vertex) bool {
+			v.SignerPublicAddress = flipStr(r, v.SignerPublicAddress)
+			return true
+		}},
 		{"flip:vertex-created-at", func(w *World, r *prng, v, o *pb.Vertex) bool { v.CreatedAt ^= 1 << uint(r.Intn(64)); return true }},
 		{"flip:vertex-signature", func(w *World, r *prng, v, o *pb.Vertex) bool { v.Signature = flipBit(r, v.Signature); return true }},
 		{"flip:vertex-hash", func(w *World, r *prng, v, o *pb.Vertex) bool { v.Hash = flipBit(r, v.Hash); return true }},
-		{"flip:left-parent", func(w *World, r *prng, v, o *pb.Vertex) bool { v.LeftParentHash = flipBit(r, v.LeftParentHash); return true }},
-		{"flip:right-parent", func(w *World, r *prng, v, o *pb.Vertex) bool { v.RightParentHash = flipBit(r, v.RightParentHash); return true }},
+		{"flip:left-parent", func(w *World, r *prng, v, o *pb.Vertex) bool {
+			v.LeftParentHash = flipBit(r, v.LeftParentHash)
+			return true
+		}},
+		{"flip:right-parent", func(w *World, r *prng, v, o *pb.Vertex) bool {
+			v.RightParentHash = flipBit(r, v.RightParentHash)
+			return true
+		}},
 		{"flip:weight", func(w *World, r *prng, v, o *pb.Vertex) bool { v.Weight ^= 1 << uint(r.Intn(12)); return true }},
-		{"flip:subject", func(w *World, r *prng, v, o *pb.Vertex) bool { v.Transaction.Subject = flipStr(r, v.Transaction.Subject); return true }},
+		{"flip:subject", func(w *World, r *prng, v, o *pb.Vertex) bool {
+			v.Transaction.Subject = flipStr(r, v.Transaction.Subject)
+			return true
+		}},
 		{"flip:data", func(w *World, r *prng, v, o *pb.Vertex) bool {
 			if len(v.Transaction.Data) == 0 {
 				return false
@@ -61,11 +73,26 @@ func mutations() []mutation {
 			v.Transaction.Data = flipBit(r, v.Transaction.Data)
 			return true
 		}},
-		{"flip:trx-hash", func(w *World, r *prng, v, o *pb.Vertex) bool { v.Transaction.Hash = flipBit(r, v.Transaction.Hash); return true }},
-		{"flip:trx-created-at", func(w *World, r *prng, v, o *pb.Vertex) bool { v.Transaction.CreatedAt ^= 1 << uint(r.Intn(40)); return true }},
-		{"flip:issuer-address", func(w *World, r *prng, v, o *pb.Vertex) bool { v.Transaction.IssuerAddress = flipStr(r, v.Transaction.IssuerAddress); return true }},
-		{"flip:receiver-address", func(w *World, r *prng, v, o *pb.Vertex) bool { v.Transaction.ReceiverAddress = flipStr(r, v.Transaction.ReceiverAddress); return true }},
-		{"flip:issuer-signature", func(w *World, r *prng, v, o *pb.Vertex) bool { v.Transaction.IssuerSignature = flipBit(r, v.Transaction.IssuerSignature); return true }},
+		{"flip:trx-hash", func(w *World, r *prng, v, o *pb.Vertex) bool {
+			v.Transaction.Hash = flipBit(r, v.Transaction.Hash)
+			return true
+		}},
+		{"flip:trx-created-at", func(w *World, r *prng, v, o *pb.Vertex) bool {
+			v.Transaction.CreatedAt ^= 1 << uint(r.Intn(40))
+			return true
+		}},
+		{"flip:issuer-address", func(w *World, r *prng, v, o *pb.Vertex) bool {
+			v.Transaction.IssuerAddress = flipStr(r, v.Transaction.IssuerAddress)
+			return true
+		}},
+		{"flip:receiver-address", func(w *World, r *prng, v, o *pb.Vertex) bool {
+			v.Transaction.ReceiverAddress = flipStr(r, v.Transaction.ReceiverAddress)
+			return true
+		}},
+		{"flip:issuer-signature", func(w *World, r *prng, v, o *pb.Vertex) bool {
+			v.Transaction.IssuerSignature = flipBit(r, v.Transaction.IssuerSignature)
+			return true
+		}},
 		{"flip:receiver-signature", func(w *World, r *prng, v, o *pb.Vertex) bool {
 			if len(v.Transaction.ReceiverSignature) == 0 {
 				return false
@@ -73,8 +100,14 @@ func mutations() []mutation {
 			v.Transaction.ReceiverSignature = flipBit(r, v.Transaction.ReceiverSignature)
 			return true
 		}},
-		{"flip:currency", func(w *World, r *prng, v, o *pb.Vertex) bool { v.Transaction.Spice.Currency ^= 1 << uint(r.Intn(20)); return true }},
-		{"flip:supplementary", func(w *World, r *prng, v, o *pb.Vertex) bool { v.Transaction.Spice.SupplementaryCurrency ^= 1 << uint(r.Intn(50)); return true }},
+		{"flip:currency", func(w *World, r *prng, v, o *pb.Vertex) bool {
+			v.Transaction.Spice.Currency ^= 1 << uint(r.Intn(20))
+			return true
+		}},
+		{"flip:supplementary", func(w *World, r *prng, v, o *pb.Vertex) bool {
+			v.Transaction.Spice.SupplementaryCurrency ^= 1 << uint(r.Intn(50))
+			return true
+		}},
 		{"resize:data-truncate", func(w *World, r *prng, v, o *pb.Vertex) bool {
 			if len(v.Transaction.Data) == 0 {
 				return false
@@ -82,7 +115,10 @@ func mutations() []mutation {
 			v.Transaction.Data = v.Transaction.Data[:r.Intn(len(v.Transaction.Data))]
 			return true
 		}},
-		{"resize:data-extend", func(w *World, r *prng, v, o *pb.Vertex) bool { v.Transaction.Data = append(append([]byte{}, v.Transaction.Data...), r.Bytes(1+r.Intn(8))...); return true }},
+		{"resize:data-extend", func(w *World, r *prng, v, o *pb.Vertex) bool {
+			v.Transaction.Data = append(append([]byte{}, v.Transaction.Data...), r.Bytes(1+r.Intn(8))...)
+			return true
+		}},
 		{"resize:subject-truncate", func(w *World, r *prng, v, o *pb.Vertex) bool {
 			if len(v.Transaction.Subject) < 2 {
 				return false
@@ -91,8 +127,14 @@ func mutations() []mutation {
 			return true
 		}},
 		{"resize:subject-extend", func(w *World, r *prng, v, o *pb.Vertex) bool { v.Transaction.Subject += "x"; return true }},
-		{"resize:signature-truncate", func(w *World, r *prng, v, o *pb.Vertex) bool { v.Signature = v.Signature[:r.Intn(len(v.Signature))]; return true }},
-		{"resize:issuer-signature-extend", func(w *World, r *prng, v, o *pb.Vertex) bool { v.Transaction.IssuerSignature = append(append([]byte{}, v.Transaction.IssuerSignature...), 0); return true }},
+		{"resize:signature-truncate", func(w *World, r *prng, v, o *pb.Vertex) bool {
+			v.Signature = v.Signature[:r.Intn(len(v.Signature))]
+			return true
+		}},
+		{"resize:issuer-signature-extend", func(w *World, r *prng, v, o *pb.Vertex) bool {
+			v.Transaction.IssuerSignature = append(append([]byte{}, v.Transaction.IssuerSignature...), 0)
+			return true
+		}},
 		{"move-bytes:subject->data", func(w *World, r *prng, v, o *pb.Vertex) bool {
 			s := v.Transaction.Subject
 			if len(s) < 2 {
